@@ -177,7 +177,7 @@ func snapshot(t jid.Transformer) (dump string, mutable int) {
 // battery applies t through every interface to strings that hit every
 // escapable byte / every escape code, with short destinations and split
 // sources, so that any scratch state a call could leave behind is written.
-func battery(t jid.Transformer, salt byte) {
+func battery(t jid.Transformer, salt byte, after func()) {
 	var ins [][]byte
 	for _, c := range []byte(escSet) {
 		ins = append(ins, []byte{'a' + salt, c, 'b', c, c})
@@ -200,19 +200,27 @@ func battery(t jid.Transformer, salt byte) {
 			_, _ = handLoop(t, in, 3, []int{1, 2})
 			return nil, nil
 		})
+		if after != nil {
+			after()
+		}
 	}
 }
 
 // stateWrites reports 0 when a battery of calls leaves everything reachable from
 // the package-level value unchanged, 1 otherwise (with both dumps).
 func stateWrites(t jid.Transformer) (n int, before, after string, mutable int) {
-	battery(t, 0) // warm-up: lazily initialised tables are built here
+	battery(t, 0, nil) // warm-up: lazily initialised tables are built here
 	before, mutable = snapshot(t)
-	battery(t, 1)
-	after, _ = snapshot(t)
-	if before != after {
-		n = 1
-	}
+	after = before
+	// compared after every input: state that happens to return to its old value at the end of
+	// the battery still counts
+	battery(t, 1, func() {
+		if n == 0 {
+			if now, _ := snapshot(t); now != before {
+				n, after = 1, now
+			}
+		}
+	})
 	return
 }
 
